@@ -160,6 +160,24 @@ func runTwinStream(seed int64, n int, out, backendSpec string) *RunReport {
 					}
 				}
 			}
+			// a lower bound only, walked backwards (values of higher-ranked types lie above every numeric bound)
+			for _, fld := range []string{"a", "b", "x", "s"} {
+				for _, op := range []string{"OGt", "OGtEq"} {
+					fixed = append(fixed, QSpec{Coll: "t0", Steps: []QStep{{Kind: "where", C: &Crit{Kind: "cmp", Op: op, Field: fld, Val: Operand{Lit: int(g.Intn(4))}}}, {Kind: "sort", Opts: []SortOpt{{fld, -1}}}}})
+					fixed = append(fixed, QSpec{Coll: "t0", Steps: []QStep{{Kind: "where", C: &Crit{Kind: "cmp", Op: op, Field: fld, Val: Operand{Lit: int(g.Intn(4))}}}, {Kind: "sort", Opts: []SortOpt{{fld, -1}}}, {Kind: "limit", N: 1}}})
+				}
+			}
+			// equality with nil on an indexed field (documents lacking the field share the nil key but do not match), alone, with
+			// a skip, and sorted by that field in both directions
+			for _, fld := range []string{"a", "b", "x", "n.a"} {
+				c := &Crit{Kind: "cmp", Op: "OEq", Field: fld, Val: Operand{Lit: nil}}
+				fixed = append(fixed, QSpec{Coll: "t0", Steps: []QStep{{Kind: "where", C: c}}})
+				fixed = append(fixed, QSpec{Coll: "t0", Steps: []QStep{{Kind: "where", C: &Crit{Kind: "isnil", Field: fld}}, {Kind: "skip", N: 1}}})
+				for _, dir := range []int{1, -1} {
+					fixed = append(fixed, QSpec{Coll: "t0", Steps: []QStep{{Kind: "where", C: c}, {Kind: "sort", Opts: []SortOpt{{fld, dir}}}, {Kind: "skip", N: 1 + g.Intn(2)}}})
+				}
+				fixed = append(fixed, QSpec{Coll: "t0", Steps: []QStep{{Kind: "where", C: &Crit{Kind: "not", A: &Crit{Kind: "not", A: &Crit{Kind: "cmp", Op: pickOf(g, []string{"OGt", "OLtEq"}), Field: fld, Val: Operand{Lit: int(g.Intn(5))}}}}}}})
+			}
 			// In on an indexed field with operands that are references to another field (in both spellings) next to literals:
 			// whatever range the planner derives from the literals must not hide documents matching through the reference
 			for _, fld := range []string{"a", "b", "x"} {
@@ -175,6 +193,10 @@ func runTwinStream(seed int64, n int, out, backendSpec string) *RunReport {
 					for _, op2 := range []string{"OGt", "OGtEq", "OLt", "OLtEq", "OEq"} {
 						l1 := g.Intn(5)
 						l2 := l1 + g.Intn(3) - 1
+						if fld == "a" { // on one field the three relative positions of the two literals in turn
+							l1 = 2
+							l2 = 1 + (len(fixed) % 3)
+						}
 						c1 := &Crit{Kind: "cmp", Op: op1, Field: fld, Val: Operand{Lit: int(l1)}}
 						c2 := &Crit{Kind: "cmp", Op: op2, Field: fld, Val: Operand{Lit: pickOf(g, []interface{}{int(l2), float64(l2), uint8(l1 + 1)})}}
 						if g.Intn(4) == 0 {
